@@ -567,20 +567,22 @@ def ref_tree_ids(l):
     """Merkle ids computed with hashlib from the nested dict, entries in git's canonical order.
     Returns (root id, {id: [(name, mode, id)] in canonical order})."""
     trees = {}
+    ref_tree_ids.dirs = dirs = {}
 
-    def build(d):
+    def build(d, path):
         ents = []
         for name, v in d.items():
             if isinstance(v, dict):
-                ents.append((name, DIR, build(v)))
+                ents.append((name, DIR, build(v, path + (name,))))
             else:
                 ents.append((name, v[0], v[1]))
         ents.sort(key=lambda e: e[0] + b"/" if e[1] == DIR else e[0])
         body = b"".join(b"%o %s\0" % (m, n) + bytes.fromhex(i) for n, m, i in ents)
         tid = hashlib.sha1(b"tree %d\0" % len(body) + body).hexdigest()
         trees[tid] = ents
+        dirs[b"/".join(path)] = tid
         return tid
-    return build(nest(l)), trees
+    return build(nest(l), ()), trees
 
 
 def parse_raw_tree(raw: bytes):
@@ -636,6 +638,10 @@ def unj_entries(js):
 # ------------------------------------------------------------------------------------------------
 # C git as a third party
 
+class GitRejected(Exception):
+    pass
+
+
 class Git:
     def __init__(self, ctx):
         self.dir = ctx.scratch / "cgit"
@@ -647,21 +653,23 @@ class Git:
             assert p.stdout.decode().strip() == blob_id(d)
         self.calls = 0
 
-    def _run(self, args, data=b""):
+    def _run(self, args, data=b"", reject_ok=False):
         self.calls += 1
         p = subprocess.run(["git", "--git-dir", str(self.dir)] + args, input=data, stdout=subprocess.PIPE,
                            stderr=subprocess.PIPE, env=self.env)
         if p.returncode != 0:
+            if reject_ok:
+                raise GitRejected(p.stderr.decode(errors="replace")[:300])
             raise core.InfraError(f"git {args} failed: {p.stderr.decode(errors='replace')[:400]}")
         return p.stdout
 
-    def mktree(self, ents):
+    def mktree(self, ents, reject_ok=False):
         """ents: [(name, mode, hexid)] in ANY order -> id git computes (git sorts itself)"""
         if not ents:
             return EMPTY_TREE
         data = b"".join(b"%06o %s %s\t%s\0" % (m, b"tree" if m == DIR else b"commit" if m == GITLINK else b"blob",
                                                 i.encode(), n) for n, m, i in ents)
-        return self._run(["mktree", "-z", "--missing"], data).decode().strip()
+        return self._run(["mktree", "-z", "--missing"], data, reject_ok).decode().strip()
 
     def tree_of_listing(self, l):
         """root id C git computes for the flat listing (bottom-up mktree over an independently nested dict)"""
@@ -1122,6 +1130,9 @@ def oracle_case(ctx, stream, c, cj, res, v):
         root, trees = ref_tree_ids(l)
         if res["id_" + side] != root:
             fail(f"commit_tree id {res['id_' + side]} != reference Merkle id {root} (side {side})", "tree-id")
+        want1 = sorted(list(l) + [(p, DIR, t) for p, t in ref_tree_ids.dirs.items()])
+        if sorted(unj_entries(res[f"flat_{side}1"])) != want1:
+            fail(f"iter_tree_contents(include_trees=True) is not the listing plus one entry per directory (side {side})", "flatten-trees")
     if a is not None:
         if res.get("rt_a") != res["id_a"]:
             fail(f"commit_tree(iter_tree_contents(t)) = {res.get('rt_a')} != t = {res['id_a']}", "build-flatten")
@@ -1156,6 +1167,18 @@ def oracle_case(ctx, stream, c, cj, res, v):
             news = [n[0] for t, o, n in chg if t in ("add", "modify", "rename", "copy", "unchanged")]
             if len(set(olds)) != len(olds) or len(set(news)) != len(news):
                 fail(f"tree_changes[{fl}] mentions a path more than once on one side", f"path-twice:{fl}")
+            if fl[2] == "0":
+                dm = {o[0]: o[1] for t, o, n in chg if t == "delete"}
+                for t, o, n in chg:
+                    if t == "add" and n[0] in dm and pystat.S_IFMT(dm[n[0]]) == pystat.S_IFMT(n[1]):
+                        fail(f"tree_changes[{fl}] reports a change that keeps the file type as delete+add instead of modify: {n[0]!r}",
+                             f"type-split:{fl}")
+                        break
+                for t, o, n in chg:
+                    if t == "modify" and pystat.S_IFMT(o[1]) != pystat.S_IFMT(n[1]):
+                        fail(f"tree_changes[{fl}] reports a type change as modify although change_type_same is off: {n[0]!r}",
+                             f"type-split:{fl}")
+                        break
             if fl[2] == "1":
                 allp = [change_path(x) for x in chg]
                 if len(set(allp)) != len(allp):
@@ -1177,6 +1200,11 @@ def oracle_case(ctx, stream, c, cj, res, v):
                     fail(f"tree_changes[{fl}] reports a change that is not one: {t} {o} {n}", f"bogus-change:{fl}")
                     break
             if fl[0] == "1":
+                same = sorted(p for p in da if db.get(p) == da[p])
+                rep_same = sorted(o[0] for t, o, n in chg if t == "unchanged")
+                if same != rep_same:
+                    fail(f"want_unchanged: the unchanged entries reported are not exactly the entries both trees hold identically [{fl}]",
+                         f"unchanged-set:{fl}")
                 base = res["changes"].get("0" + fl[1:] + "/0")
                 if isinstance(base, list) and [x for x in chg if x[0] != "unchanged"] != unj_changes(base):
                     fail(f"want_unchanged changes the reported differences [{fl}]", f"want-unchanged:{fl}")
@@ -1243,7 +1271,11 @@ def oracle_git(ctx, stream, c, cj, res, git):
     if a is not None:
         for tid, raw in list(res["trees_a"].items())[:4]:
             ents = [(n, m, i) for n, m, i, _ in parse_raw_tree(unhx(raw))]
-            g = git.mktree(list(reversed(ents)))
+            try:
+                g = git.mktree(list(reversed(ents)), reject_ok=True)
+            except GitRejected as e:
+                ctx.oracle_fail(stream, {"tree": tid, **cj}, f"git mktree rejects the entries of a tree dulwich stored: {e}", "tree-entries:cgit-rejects")
+                continue
             if g != tid:
                 ctx.oracle_fail(stream, {"tree": tid, **cj}, f"git mktree of the same entries gives {g}, dulwich stored {tid}", "tree-id:cgit")
     if any(m == GROUPW for p, m, i in (a or []) + (b or [])):
